@@ -299,7 +299,7 @@ func monomialSmall(n, e int) []int64 {
 // brKeys generates the blind rotation keys with the library and checks that the RGSW keys encrypt X^{s_i}
 // with well-formed rows (two of them here; all of them in the brkeys/ scenarios). When they do not, the RGSW
 // keys are rebuilt by the harness so that the evaluator is judged on well-formed keys.
-func brKeys(c *engine.Chooser, cf brConfig, lwe, br rlwe.Parameters, skLWE, skBR *rlwe.SecretKey, sLWE, sBR []int64) (*recKeySet, string, int, int) {
+func brKeys(c *engine.Chooser, cf brConfig, lwe, br rlwe.Parameters, skLWE, skBR *rlwe.SecretKey, sLWE, sBR []int64) (*recKeySet, string) {
 	evkParams := rlwe.EvaluationKeyParameters{BaseTwoDecomposition: utils.Pointy(cf.v.pw2)}
 	lib := blindrot.GenEvaluationKeyNew(br, skBR, lwe, skLWE, evkParams)
 	Be := big.NewInt(int64(br.NoiseBound()))
@@ -328,7 +328,7 @@ func brKeys(c *engine.Chooser, cf brConfig, lwe, br rlwe.Parameters, skLWE, skBR
 			buildRGSW(br, keys[i], sBR, monomialSmall(br.N(), int(sLWE[i])), c.Seed^uint64(7919*(i+1)))
 		}
 	}
-	return newRecKeySet(keys, lib.AutomorphismKeys), src, levelQ, levelP
+	return newRecKeySet(keys, lib.AutomorphismKeys), src
 }
 
 func brScenario(cf brConfig) engine.Scenario {
@@ -348,7 +348,7 @@ func brScenario(cf brConfig) engine.Scenario {
 			c.Fail("C20/blindrot/precondition/hamming-weight", "%s: secret of weight %d instead of %d", name, hw, cf.h)
 			return
 		}
-		rec, src, _, _ := brKeys(c, cf, lwe, br, skLWE, skBR, sLWE, sBR)
+		rec, src := brKeys(c, cf, lwe, br, skLWE, skBR, sLWE, sBR)
 		c.Cover("brk-source", src+"/"+cf.v.name)
 
 		// scale: the largest power of two with max|f|·scale ≤ Q/8
@@ -494,7 +494,8 @@ func brScenario(cf brConfig) engine.Scenario {
 				// drift of x. Drift (in grid steps) of the implementation's exponent against the exact k_real =
 				// phase·2N/Q of the LWE sample: ≤ 1/2 for rounding b, and for every non-zero secret coefficient ≤ 1/2
 				// for rounding a_j plus ≤ 1 for forcing it odd: D = 1/2 + 3h/2. One more step is granted for the
-				// discretisation itself ("up to the discretisation step").
+				// discretisation itself ("up to the discretisation step"). Near a and b the window reaches beyond the interval, where
+				// the look-up continues negacyclically (InitTestPolynomial: "[a, b] should take into account the drift").
 				valueOK := true
 				if in {
 					okA := false
@@ -584,7 +585,7 @@ func brScenario(cf brConfig) engine.Scenario {
 				c.Outcome(cf.v.name, brFuncs[fi].name, where, matches[0] == ((k%twoN)+twoN)%twoN)
 			}
 		}
-		if evals > 0 && vacuous == evals {
+		if evals > 0 && vacuous == evals && !c.Failed() {
 			c.Skip("worst-case noise bound > scale/8")
 			return
 		}
